@@ -418,6 +418,22 @@ func runC15(tb stat.TB, c c15Case) {
 			return
 		}
 	}
+	// (5a) the server can still be reconfigured: a policy update (to the policy already in force) waits for requests in
+	// flight - there are none left once the stream has been dealt with - and returns. A request that never gave back
+	// its share of the policy lock would keep every later update, and with it every later request, waiting for ever.
+	{
+		cur := s.e.NFS.GetExportOptions()
+		upd := make(chan error, 1)
+		go func() {
+			upd <- s.e.NFS.UpdatePolicyOptions(absnfs.PolicyOptions{ReadOnly: cur.ReadOnly, Secure: cur.Secure, AllowedIPs: cur.AllowedIPs, Squash: cur.Squash, MaxFileSize: cur.MaxFileSize, EnableRateLimiting: cur.EnableRateLimiting, RateLimitConfig: cur.RateLimitConfig})
+		}()
+		select {
+		case <-upd:
+		case <-time.After(20 * time.Second):
+			stat.Violate(tb, id, check, "policy-update-blocks-after-stream", c, "%s: UpdatePolicyOptions (same policy) had not returned 20 s after the connection was closed", what)
+			return
+		}
+	}
 	// (5) other connections are still served
 	probe := s.e.Pipe("10.9.8.8", 701)
 	xid := s.e.NextXid()
